@@ -6,7 +6,7 @@ from fractions import Fraction as F
 
 import numpy as np
 
-from mc.util import call, raised, array_args, array_args_unchanged
+from mc.util import call, raised, array_args, array_args_unchanged, permuted_series
 from models import blockref as B
 from checks.c09 import build
 
@@ -77,6 +77,13 @@ def _cases(tier, seed):
                             if w and region == "given" and ncomp <= 2 and not center:
                                 yield dict(kind="blockmean", layout=[2, 2], sites=ms, order=order, ncomp=ncomp, w="uniform", unc=unc,
                                            region=region, center=center)
+                                # weights of magnitude 1e-9 / 1e9, and data / weights as Series with a permuted index (as C09)
+                                for wsc in (1e-9, 1e9):
+                                    yield dict(kind="blockmean", layout=[2, 2], sites=ms, order=order, ncomp=ncomp, w=True, unc=unc,
+                                               region=region, center=center, wscale=wsc)
+                            if region == "given" and ncomp <= 2 and not center:
+                                yield dict(kind="blockmean", layout=[2, 2], sites=ms, order=order, ncomp=ncomp, w=w, unc=unc,
+                                           region=region, center=center, rep="series")
                             if region == "given" and ncomp <= 2:
                                 # other ways of defining the same blocks: a shape, a spacing that does not divide the region with either
                                 # adjustment (mutation survivor: the adjust keyword dropped from BlockMean's block_split call)
@@ -175,6 +182,8 @@ def run(case, rec):
     wts = None
     if case["w"]:
         wts = [np.array([[p + 1.0, (npts - p) + 0.5, 2.0 ** p][c] for p in range(npts)]) for c in range(ncomp)]
+    if wts is not None and case.get("wscale"):
+        wts = [w_ * case["wscale"] for w_ in wts]
     if case["w"] == "uniform":
         # every point has the same uncertainty: still weights, not "no weights" (seed C10-9)
         wts = [np.full(npts, 0.25 * (c + 1)) for c in range(ncomp)]
@@ -206,6 +215,10 @@ def run(case, rec):
         d_arg = tuple(np.asfortranarray(d.reshape(shp)) for d in data)
         if wts is not None:
             w_arg = tuple(np.ascontiguousarray(w.reshape(shp).T).T for w in wts)
+    if rep == "series":
+        d_arg = permuted_series(data[0]) if ncomp == 1 else tuple(permuted_series(d_, k_) for k_, d_ in enumerate(data))
+        if wts is not None:
+            w_arg = permuted_series(wts[0], 1) if ncomp == 1 else tuple(permuted_series(w_, k_ + 1) for k_, w_ in enumerate(wts))
     before = [a.tobytes() for a in [e, n] + data + (wts or [])]
     route = case.get("route")
     if route in ("set_params", "attribute"):
